@@ -234,6 +234,14 @@ def run(pid, tier):
             if mode == "api" and len(sc["args"]) != 1:
                 mode = "scan"
             jobs.append((sc, pool, mode))
+        # processing order: every scenario whose selection spans more than one directory goes through scan and fix (not sampled:
+        # the order of the scan / fix loop is not the discovery function's business)
+        multi = [sc for sc in scen if sc["kind"] == "files" and len({os.path.dirname(G.ENTRIES[i - 1][0]) for i in sc["files"]}) > 1]
+        multi.sort(key=lambda sc: (sc["tree"], sc["args"], sc["recurse"], sc["ext"]))
+        if tier == "quick" and len(multi) > 400:
+            multi = multi[::max(1, len(multi) // 400)]
+        for k, sc in enumerate(multi):
+            jobs.append((sc, pool, ("scan", "fix")[k % 2]))
         cres = impl.pmap(_cli_case, jobs, procs=16)
         for (sc, _p, mode), o in zip(jobs, cres):
             total += 1
